@@ -135,7 +135,7 @@ func c40bShutdown() {
 
 type c40bStats struct {
 	cached, cachedReplay, terminalDurable, finishFlushed, finishFailedAfterLoss, finishFailedNothingOpen atomic.Int64
-	losses, lossesWithOpenContent, pressureRefused, pressureEvictedTerminal, finishAfterPartialLoss     atomic.Int64
+	losses, lossesWithOpenContent, pressureRefused, pressureEvictedTerminal, finishAfterPartialLoss      atomic.Int64
 	closeAfterLoss, mergedClose, flushedLanes, appendAfterTerminal, ownRefused                           atomic.Int64
 }
 
